@@ -202,6 +202,32 @@ def replay(cases_path, out_path):
                     fail("string_index", c, "another column", first, name=nm, names=names)
             except Exception as ex:      # noqa: BLE001
                 fail("string_index", c, "raised " + type(ex).__name__, first, name=nm, names=names)
+            # ... in every TABLE key form that takes a stored name: a tuple of names, a (row slice, names) pair.  A form the library
+            # does not take is outside this clause; a form it takes shows the FIRST column's cells.  (t[i, name] is not among
+            # them: it reads the field of a Row, which is attribute access on the row, not string indexing of the table.)
+            other = next((x for x in names if isinstance(x, str) and x != nm), None)
+            want = list(cols[first])
+            forms = {"t[(name,)]": lambda: t[(nm,)], "t[:, (name,)]": lambda: t[:, (nm,)], "t[:, name]": lambda: t[:, nm],
+                     "t[0:1, name]": lambda: t[0:1, nm]}
+            if other is not None:
+                forms["t[(other, name)]"] = lambda: t[(other, nm)]
+                forms["t[:, (other, name)]"] = lambda: t[:, (other, nm)]
+            for how, fn in forms.items():
+                try:
+                    with warnings.catch_warnings():
+                        warnings.simplefilter("ignore")
+                        r = fn()
+                except Exception:      # noqa: BLE001
+                    continue
+                if isinstance(r, Table):
+                    got = list(r.cols()[-1])
+                elif isinstance(r, Vector):
+                    got = list(r)
+                else:
+                    got = [r]
+                exp_cells = want if how != "t[0:1, name]" else want[0:1]
+                if got != exp_cells:
+                    fail("string_index", c, got, exp_cells, name=nm, names=names, form=how)
         # the dot row of the repr advertises the same accessors
         dr = dot_row(repr(t))
         if dr is not None and dr != exp:
